@@ -12,6 +12,7 @@ import (
 	"context"
 	"errors"
 	"fmt"
+	"reflect"
 	"sort"
 	"strings"
 
@@ -135,9 +136,9 @@ func vpCRD(name string) *metav1.PartialObjectMetadata {
 	}
 }
 
-func vpNewWorld(plus bool) *vpWorld {
-	w := &vpWorld{files: &vpFileMgr{}, rt: &vpRuntime{}, plus: plus}
-	w.k8s = fake.NewClientBuilder().WithScheme(scheme).
+// vpNewCluster creates the fake API server.
+func vpNewCluster() client.WithWatch {
+	k8s := fake.NewClientBuilder().WithScheme(scheme).
 		WithIndex(&discoveryV1.EndpointSlice{}, index.KubernetesServiceNameIndexField, index.ServiceNameIndexFunc).
 		WithStatusSubresource(
 			&gatewayv1.GatewayClass{}, &gatewayv1.Gateway{}, &gatewayv1.HTTPRoute{}, &gatewayv1.GRPCRoute{},
@@ -145,6 +146,19 @@ func vpNewWorld(plus bool) *vpWorld {
 			&ngfAPIv1alpha2.ObservabilityPolicy{}, &ngfAPIv1alpha1.UpstreamSettingsPolicy{},
 			&ngfAPIv1alpha1.SnippetsFilter{}, &ngfAPIv1alpha1.NginxGateway{},
 		).Build()
+	// the NGF-fronting Service is looked up on every status update
+	_ = k8s.Create(context.Background(), &apiv1.Service{ObjectMeta: metav1.ObjectMeta{Name: "nginx-gateway", Namespace: vpPodNS}})
+	return k8s
+}
+
+func vpNewWorld(plus bool) *vpWorld { return vpNewWorldWith(vpNewCluster(), plus) }
+
+// vpNewWorldOver starts a new controller incarnation (OSS) over an existing cluster.
+func vpNewWorldOver(k8s client.WithWatch) *vpWorld { return vpNewWorldWith(k8s, false) }
+
+func vpNewWorldWith(k8s client.WithWatch, plus bool) *vpWorld {
+	w := &vpWorld{files: &vpFileMgr{}, rt: &vpRuntime{}, plus: plus}
+	w.k8s = k8s
 	mustExtractGVK := kinds.NewMustExtractGKV(scheme)
 	genericValidator := ngxvalidation.GenericValidator{}
 	policyManager := createPolicyManager(mustExtractGVK, genericValidator)
@@ -185,9 +199,60 @@ func vpNewWorld(plus bool) *vpWorld {
 		updateGatewayClassStatus: true,
 		plus:                     plus,
 	})
-	// the NGF-fronting Service is looked up on every status update
-	_ = w.k8s.Create(context.Background(), &apiv1.Service{ObjectMeta: metav1.ObjectMeta{Name: "nginx-gateway", Namespace: vpPodNS}})
 	return w
+}
+
+// vpListAll lists every object of every watched kind (the start-up listing of the first event batch).
+func vpListAll(k8s client.WithWatch) []client.Object {
+	ctx := context.Background()
+	var out []client.Object
+	add := func(list client.ObjectList) {
+		if err := k8s.List(ctx, list); err != nil {
+			panic(err)
+		}
+		items := reflect.ValueOf(list).Elem().FieldByName("Items")
+		for i := 0; i < items.Len(); i++ {
+			out = append(out, items.Index(i).Addr().Interface().(client.Object))
+		}
+	}
+	add(&apiv1.NamespaceList{})
+	add(&gatewayv1.GatewayClassList{})
+	add(&apiv1.SecretList{})
+	add(&apiv1.ConfigMapList{})
+	add(&apiv1.ServiceList{})
+	add(&discoveryV1.EndpointSliceList{})
+	add(&v1beta1.ReferenceGrantList{})
+	add(&v1alpha3.BackendTLSPolicyList{})
+	add(&ngfAPIv1alpha1.NginxProxyList{})
+	add(&gatewayv1.GatewayList{})
+	add(&gatewayv1.HTTPRouteList{})
+	add(&gatewayv1.GRPCRouteList{})
+	add(&v1alpha2.TLSRouteList{})
+	add(&ngfAPIv1alpha1.ClientSettingsPolicyList{})
+	add(&ngfAPIv1alpha2.ObservabilityPolicyList{})
+	add(&ngfAPIv1alpha1.UpstreamSettingsPolicyList{})
+	add(&ngfAPIv1alpha1.SnippetsFilterList{})
+	var keep []client.Object
+	for _, o := range out {
+		if svc, ok := o.(*apiv1.Service); ok && svc.Namespace == vpPodNS && svc.Name == "nginx-gateway" {
+			continue
+		}
+		keep = append(keep, o)
+	}
+	return keep
+}
+
+// vpCloneCluster copies every object (without status) into a new fake API server.
+func vpCloneCluster(k8s client.WithWatch) client.WithWatch {
+	nk := vpNewCluster()
+	for _, o := range vpListAll(k8s) {
+		cp := o.DeepCopyObject().(client.Object)
+		cp.SetResourceVersion("")
+		if err := nk.Create(context.Background(), cp); err != nil {
+			panic(err)
+		}
+	}
+	return nk
 }
 
 func vpPlusSecrets(plus bool) map[types.NamespacedName][]graph.PlusSecretFile {
